@@ -216,7 +216,13 @@ def check_level_loop(ck, view, inst, event_ids, want_init, want_op, want_bound, 
         return None
     got = "%s = %s; %s %s %s; step %+d" % (nm, view.level_name(init), nm, sh["cond"][0], view.level_name(bound), sh["step"][0])
     ok = init == want_init and sh["cond"][0] == want_op and bound == want_bound and sh["step"][0] == want_step
-    ck.ob(rule, inst, ok, "%s: %s (documented: %s)" % ("level loop" if ok else "level loop differs", got, what), view.fn.file, loop.get("l"),
+    why = ""
+    if not ok:
+        for nm2, g, w in (("start", init, want_init), ("bound", bound, want_bound)):
+            if g != w and g[0] == "abs":
+                why += "; the %s is the constant level %d instead of %s: for a level sub-range with top_level > %d levels outside [top, last] of this multigrid are visited" % (
+                    nm2, g[1], view.level_name(w), g[1])
+    ck.ob(rule, inst, ok, "%s: %s (documented: %s)%s" % ("level loop" if ok else "level loop differs", got, what, why), view.fn.file, loop.get("l"),
           sample={"loop": got, "documented": what})
     return sh
 
